@@ -32,13 +32,18 @@ class Findings:
     def __init__(self):
         self.by_key = {}
     def add(self, key, what, case):
-        e = self.by_key.setdefault(key, {"n": 0, "what": what, "examples": []})
+        e = self.by_key.setdefault(key, {"n": 0, "what": what, "examples": [], "telling": False})
         e["n"] += 1
-        if len(e["examples"]) < 5:
+        telling = isinstance(case.get("base"), int) and case["base"] > 1      # a headline with base 0/1 says little
+        if telling and not e["telling"]:
+            e["what"], e["telling"] = what, True
+            e["examples"].insert(0, case)
+            del e["examples"][5:]
+        elif len(e["examples"]) < 5:
             e["examples"].append(case)
     def merge(self, other):
         for k, e in other.by_key.items():
-            d = self.by_key.setdefault(k, {"n": 0, "what": e["what"], "examples": []})
+            d = self.by_key.setdefault(k, {"n": 0, "what": e["what"], "examples": [], "telling": e.get("telling", False)})
             d["n"] += e["n"]
             d["examples"] = (d["examples"] + e["examples"])[:5]
 
@@ -262,7 +267,7 @@ def group_A(exe, group, tier, info, only=None):
             raise vlib.Infra("TLC %s printed no cases of family %s" % (cfg, fam))
         if fam == "powT" and fl[0]["T"] != info["T"]:
             raise vlib.Infra("table limit of the spec (%s) is not TMCG_MAX_FPOWM_T of the library (%s)" % (fl[0]["T"], info["T"]))
-        fl.sort(key=lambda L: json.dumps([L["f"]] + [L.get(k) for k in ("m", "b", "e", "p", "q", "a")]))
+        fl.sort(key=lambda L: (L["f"], L.get("m", 0), L.get("b", 0), L.get("e", 0), L.get("p", 0), L.get("q", 0), L.get("a", [])))
         t1 = time.time()
         F, stats, wall = run_cases(exe, fam, fl)
         vlib.log("family %s: %d cases, driver %.0fs, lookup %.0fs" % (fam, len(fl), wall, time.time() - t1 - wall))
@@ -369,7 +374,7 @@ def run(tier, seed):
                 ck.part("A:" + fam, tlc_cases=len(lines), driver_wall_s=round(wall, 1))
                 allF.merge(F)
                 if fam in ("pow", "sqp", "ip"):
-                    L = next((x for x in lines if x["f"] == fam and x.get("b", 2) > 1 and x.get("p", 9) > 7), lines[0])
+                    L = next((x for x in lines if x["f"] == fam and x.get("b", 2) > 1 and x.get("p", 9) > 7 and x.get("m", 23) == 23), lines[0])
                     s = json.loads(json.dumps(L))
                     for k in list(s):          # keep the sample readable
                         if isinstance(s[k], list) and len(s[k]) > 12:
